@@ -979,6 +979,12 @@ func VerifC08() {
 	// candidates: implementers of vI1 (*vPA, *vPB, *vPP) and *vPC (not an implementer)
 	ps, ts := vProvidersOf(k, true, []int{tPA, tPC, tPP})
 	hm := r.register(h, "holder")
+	if nd.Param("MIXED", 0) == 1 && nd.Bool() {
+		// the holder also carries a configuration value: its property list mixes both property kinds,
+		// in whatever order the groups are enumerated
+		hm.SetProperties(component_definition.NewProperty(nil, component_definition.PropertyTypeConfiguration, "value", "x"))
+		nd.Cover("holder with a configuration value next to its injection points")
+	}
 	for _, p := range ps {
 		r.register(p, vProviderName(p))
 	}
@@ -1262,7 +1268,14 @@ type vHRet struct {
 	nm  string
 	Pre []any `func:"Stage,returns=p,required=false"`
 	Xs  []any `func:"Kind,returns=x,required=false"`
+	// the wildcard accepts any result - of components that HAVE the method
+	Any []any `func:"Stage,returns=*,required=false"`
 }
+
+// a component of a compatible type that does not expose the requested methods
+type vNoRet struct{ nm string }
+
+func (p *vNoRet) Naming() string { return p.nm }
 
 func (h *vHRet) Naming() string { return h.nm }
 
@@ -1280,8 +1293,15 @@ func VerifC06Returns() {
 		ps = append(ps, p)
 		r.register(p, vNames[i])
 	}
+	plain := &vNoRet{nm: "plain"}
+	r.register(plain, "plain")
 	_, err := r.f.doGetComponent("holder")
 	nd.Assert(err == nil, "C06: optional func points never fail")
+	for _, e := range h.Any {
+		_, isRet := e.(*vRet)
+		nd.Assert(isRet, "C06: a func point with the wildcard result receives only components that expose the requested method")
+	}
+	nd.Assert(len(h.Any) == k, "C06: a func point with the wildcard result receives every component that exposes the requested method exactly once")
 	count := func(list []any, p *vRet) int {
 		c := 0
 		for _, e := range list {
